@@ -182,6 +182,9 @@ def canon(lines):
 def run_pair(exe, script_path):
     ri = sh([exe, script_path], timeout=900)
     rm = sh([MODEL, script_path], timeout=900)
+    if os.environ.get("VERIF_DUMP"):
+        open(os.environ["VERIF_DUMP"] + ".impl", "w").write(ri.stdout)
+        open(os.environ["VERIF_DUMP"] + ".model", "w").write(rm.stdout)
     return ri.stdout, rm.stdout, ri.returncode, rm.returncode
 
 
@@ -356,6 +359,8 @@ def main():
                     violations.append({"kind": "oracle" if ov else "correspondence", "L": j.L, "K": j.K,
                                        "detail": (ov[0] if ov else "impl: %s | model: %s (line %d)" % (d[1], d[2], d[0])),
                                        "oracle": ov, "script": lines, "sid": sid, "job": j,
+                                       "signature": ("o:" + re.sub(r"[0-9]+", "#", ov[0])[:48]) if ov else
+                                                    "d:%s|%s" % ((d[1].split() or ["<end>"])[0], (d[2].split() or ["<end>"])[0]),
                                        "model_agrees": static_ok and model_agrees(ib.get(sid, []), mb.get(sid, [])),
                                        "model_agrees_static": static_ok,
                                        "header": gen.header_text(j.L, j.K, j.statics)})
@@ -414,9 +419,16 @@ def main():
     # failing inputs found by the oracle are reported first
     violations.sort(key=lambda v: {"oracle": 0, "does-not-compile": 1, "correspondence": 2}.get(v["kind"], 3))
     for v in violations:
+        v0 = None
         if v["kind"] in ("oracle", "correspondence") and not args.replay and nshrunk < 4:
             nshrunk += 1
+            v0 = v
             v = families.shrink(v, prop, run_pair, canon, split_blocks, first_diff, oracles, rundir, strip_markers)
+        if v0 is not None and v is not v0:
+            v = dict(v)
+            v.setdefault("unshrunk_detail", v0["detail"])
+            v.setdefault("unshrunk_len", len(v0["script"]))
+            v.setdefault("unshrunk_script", list(v0["script"]))
         kkey = oracles.known_key(prop, v, known)
         if kkey is not None:
             known_hits.setdefault(kkey["key"], kkey)
@@ -429,6 +441,10 @@ def main():
         path = os.path.join(ROOT, "replays", "%s_%s.script" % (prop, rid))
         with open(path, "w") as f:
             f.write("# property %s: %s\n# %s\n# list %r  allocator kind %r\n" % (prop, v["kind"], v["detail"].replace("\n", "\n# "), v["L"], v["K"]))
+            if v.get("unshrunk_detail") and v["unshrunk_detail"] != v["detail"]:
+                f.write("# before shrinking (%d operations): %s\n" % (v["unshrunk_len"], v["unshrunk_detail"].replace("\n", " ")))
+                for l in v.get("unshrunk_script", [])[:200]:
+                    f.write("#   %s\n" % l)
             f.write(v["header"])
             f.write("BEGIN replay\n%s\nEND\n" % "\n".join(v["script"]))
         tail = "" if v.get("oracle") or v["kind"] == "does-not-compile" and False else ""
